@@ -110,6 +110,7 @@ def run_process(env, main_factory, opts=None, *, keep_log=False, quiesce=True):
     main_factory(result) -> coroutine.  `result.repo`/`result.backend` may be filled by it.
     """
     install.install_once()
+    gc.disable()
     opts = opts or SchedOpts()
     env.procs += 1
     seed = int.from_bytes(substream(env.seed, f'proc{env.procs}').randbytes(6), 'big')
@@ -168,7 +169,19 @@ def run_process(env, main_factory, opts=None, *, keep_log=False, quiesce=True):
     res.events = s.events
     res.stdout, res.stderr = out.getvalue(), err.getvalue()
     del loop
+    # cyclic garbage of this process (suspended coroutines, futures) is finalized now, outside
+    # any simulated run; the collector is off while a run is in progress so that allocation
+    # counts never decide when a finalizer runs (replay in a fresh interpreter stays exact)
+    gc.collect()
     return res
+
+
+def _task_order(t):
+    name = t.get_name()
+    try:
+        return (0, int(name.rsplit('-', 1)[1]))
+    except (IndexError, ValueError):
+        return (1, 0)
 
 
 async def _quiesce(s):
@@ -179,7 +192,8 @@ async def _quiesce(s):
     loop = asyncio.get_running_loop()
     me = asyncio.current_task()
     for _ in range(10_000):
-        others = [t for t in asyncio.all_tasks(loop) if t is not me and not t.done()]
+        # all_tasks() is a set ordered by address: cancel in creation order instead
+        others = sorted((t for t in asyncio.all_tasks(loop) if t is not me and not t.done()), key=_task_order)
         for t in others:
             t.cancel()
         if others:
